@@ -75,7 +75,7 @@ func nameAddrSpaces(r *Run) []space {
 		}
 		sp = append(sp, space{name: "name-addr/bytes/" + h.String(), gen: byteTrie{sig, l}, cfgs: cfgs, beyondErr: 2, beyondOk: 2, split: 2})
 	}
-	menu := bs("a", " ", "\"q\\\"x\"", "<sip:a@b>", "sip:a@b", ";", "tag", "=", "expires", "q", "lr", "7", "0.5", ",", "\r\n ", "\"v;,\"", "*")
+	menu := bs("a", " ", "\"q\\\"x\"", "<sip:a@b>", "sip:a@b", ";", "tag", "=", "expires", "q", "lr", "7", "0.5", ",", "\r\n ", "\"v;,\"", "*", "1.2345")
 	k := r.pick(4, 5)
 	for _, h := range []sipsp.HdrT{sipsp.HdrFrom, sipsp.HdrContact, sipsp.HdrPAI} {
 		sp = append(sp, space{name: "name-addr/frags/" + h.String(), gen: seqTrie{Menu: menu, K: k, Term: hdrEnds},
@@ -204,6 +204,7 @@ var hdrLineMenuFull = []string{
 	"Contact: * \r\n",
 	"m: *\r\n\t\r\n",
 	"Contact: <sip:z@y>;q=1;expires=7200\r\n",
+	"m: <sip:e@f>;Q=0.1234;expires=99999999999, <sip:g@h>;q=7\r\n", // parameter errors (ParamErr / ErrOffs are set)
 	"P-Asserted-Identity: <sip:p@q>\r\n",
 	"P-Asserted-Identity: <sip:p@q>, <tel:+1>, n <sip:r@s>\r\n",
 	"Expires: 60\r\n",
